@@ -50,7 +50,9 @@ FILES = {
 }
 EMIT = ["IncrementalPFI", "IncrementalSage"]
 
-LEAN_TY = {"K": "K", "Nat": "Nat", "Bool": "Bool", "DictK": "Dict K", "ListDictK": "List (Dict K)", "ListK": "List K",
+LEAN_TY = {"ListInst": "List (Inst V)", "ListY": "List Y",
+           "DictV": "Dict V", "Out": "O", "ListOut": "List O",
+           "K": "K", "Nat": "Nat", "Bool": "Bool", "DictK": "Dict K", "ListDictK": "List (Dict K)", "ListK": "List K",
            "ListNat": "List Nat", "MV": "MV K", "Tr": "Tr K", "Inst": "Inst V", "Y": "Y", "Unit": "Unit"}
 
 STATE_FIELDS = {  # python attribute -> (lean field of Est, type)
@@ -108,6 +110,8 @@ class Fn:
         self.env = {}
         self.counter = 0
         self.uses_perm = False
+        self.last_decl_types = {}
+        self.helpers = {}
         self.stores = {}
         for n in ast.walk(fn):
             for tgt in self.store_targets(n):
@@ -419,7 +423,61 @@ class Fn:
             if t == "Tr" and f.attr in ("get", "__call__"):
                 return f"({v}.get)", "K", eff
             self.err(e, f"{f.attr}() of unsupported value")
+        if isinstance(f, ast.Attribute) and isinstance(f.value, ast.Name) and f.value.id in ("self", self.cname) \
+                and type(self) is Fn and self.src.find_method(self.cname, f.attr)[0] is not None:
+            return self.helper_call(e, allow_eff)
         self.err(e, "unsupported call")
+
+    def helper_call(self, e, allow_eff):
+        """a private helper method of the explainer, translated as its own definition in the same monad (parameter types are
+        taken from this call's arguments)"""
+        if not allow_eff:
+            self.err(e, "helper call inside a pure context")
+        if getattr(self, "depth", 0) > 3:
+            self.err(e, "helpers nested too deeply")
+        name = e.func.attr
+        fn, rel, owner = self.src.find_method(self.cname, name)
+        if any(isinstance(d, ast.Name) and d.id == "property" for d in fn.decorator_list) or name == "explain_one":
+            self.err(e, "unsupported call")
+        skip = 1 if fn.args.args and fn.args.args[0].arg in ("self", "cls") else 0
+        params = [a.arg for a in fn.args.args[skip:]]
+        got = self.kwargs(e, params, e)
+        dflt = dict(zip(params[len(params) - len(fn.args.defaults):], fn.args.defaults))
+        vals = []
+        for pn in params:
+            node = got.get(pn, dflt.get(pn))
+            if node is None:
+                self.err(e, f"missing argument {pn} of helper {name}")
+            v, t, _ = self.expr(node)
+            t = norm(t)
+            vals.append((pn, v, "Nat" if t == "IntLit" else t))
+        sub = Fn(self.src, self.cname, fn, rel)
+        sub.helper_mode, sub.ret_type, sub.depth = True, None, getattr(self, "depth", 0) + 1
+        sub.helpers = self.helpers
+        sub.deferred_types = []
+        pre = []
+        for pn, _, t in vals:
+            if isinstance(t, tuple) and t[0] == "Opt" and isinstance(t[1], Hole):
+                self.err(e, f"argument {pn} of helper {name} is a bare None")
+            if sub.stores.get(pn, 0) > 0:
+                sub.env[pn] = Var(pn, t, mut=True)
+                pre.append(f"let mut {pn} := {pn}")
+            else:
+                sub.env[pn] = Var(pn, t)
+        body = pre + sub.block(fn.body, sub.new_scope())
+        text = "\n".join("  " + x for x in body)
+        for ph, ty in sub.deferred_types:
+            text = text.replace(ph, lean_ty(ty))
+        ret = sub.ret_type or "Unit"
+        if sub.uses_perm:
+            self.uses_perm = True
+        key = (name, tuple(t if isinstance(t, str) else repr(t) for _, _, t in vals))
+        variants = [k for k in self.helpers if k[0] == name and k != key]
+        lname = f"{self.cname}.{name}" + (f"_{len(variants) + 1}" if variants else "")
+        sig = " ".join(f"({pn} : {lean_ty(t)})" for pn, _, t in vals)
+        self.helpers[key] = (lname, sub.uses_perm, sig, ret, text)
+        fixed = "O feature_names cfg_n_inner_samples " + ("permutation " if sub.uses_perm else "") + "imputeM"
+        return f"(← {lname} {fixed} {' '.join(v for _, v, _ in vals)})", ret, True
 
     def listcomp(self, e, allow_eff):
         if len(e.generators) != 1 or e.generators[0].ifs or not isinstance(e.generators[0].target, ast.Name):
@@ -507,6 +565,14 @@ class Fn:
                 scope["narrowed"][name] = nv
                 return [f"let mut {nv.lean} : {lean_ty(ty)} := {value}"]
             if self.unify(ct, ty, node) is None:
+                if name in scope["declared"]:
+                    # Python re-binds the name to a value of another type: a new (shadowing) Lean variable, legal because the old one
+                    # was declared in this very block
+                    mut = self.stores.get(name, 0) > 2
+                    nn = self.fresh(name + "_r")      # a fresh Lean name (a `let mut` variable cannot be shadowed)
+                    self.env[name] = Var(nn, ty, mut=mut)
+                    self.last_decl_types[name] = ty
+                    return [f"let {'mut ' if mut else ''}{nn} : {lean_ty(ty)} := {value}"]
                 self.err(node, f"`{name}` changes its type from {ct} to {ty}")
             if not cur.mut:
                 self.err(node, f"assignment to immutable `{name}`")
@@ -525,6 +591,7 @@ class Fn:
         v = Var(name, ty, mut=mut)
         self.env[name] = v
         scope["declared"].append(name)
+        self.last_decl_types[name] = ty
         return [f"let {'mut ' if mut else ''}{name} : {lean_ty(ty)} := {value}"]
 
     def new_scope(self):
@@ -589,8 +656,15 @@ class Fn:
 
             def build():
                 v, t, eff = self.expr(s.value)
-                if norm(t) != "DictK":
-                    self.err(s, f"explain_one returns a value of type {norm(t)}")
+                t = norm(t)
+                if getattr(self, "helper_mode", False):
+                    if t == "IntLit":
+                        t = "Nat"
+                    if getattr(self, "ret_type", None) not in (None, t):
+                        self.err(s, f"helper returns values of different types ({self.ret_type} and {t})")
+                    self.ret_type = t
+                elif t != "DictK":
+                    self.err(s, f"explain_one returns a value of type {t}")
                 return [f"return {v}"]
             return self.with_world(build)
         self.err(s, "unsupported statement")
@@ -636,6 +710,30 @@ class Fn:
             k, kt, _ = self.expr(target.slice)
             v, vt, _ = self.expr(value)
             return [f"{d.lean} := Dict.set {d.lean} {self.asNat(k, kt, node)} {self.asK(v, vt, node)}"]
+        if isinstance(target, (ast.Tuple, ast.List)) and isinstance(value, (ast.Tuple, ast.List)) and len(target.elts) == len(value.elts):
+            # `a, b = e1, e2`: the whole right-hand side is evaluated first (left to right), then stored left to right
+            lines, tmps = [], []
+            for e_ in value.elts:
+                v, t, eff = self.expr(e_)
+                t = norm(t)
+                if t == "IntLit":
+                    t = "Nat"
+                tn = self.fresh("rhs")
+                lines.append(f"let {tn} : {lean_ty(t)} := {v}")
+                tmps.append((tn, t))
+            for tg, (tn, t) in zip(target.elts, tmps):
+                if isinstance(tg, ast.Name):
+                    lines += self.declare(tg.id, tn, t, node, scope)
+                else:
+                    fake = ast.Name(id="__tmp__", ctx=ast.Load())
+                    saved = self.env.get("__tmp__")
+                    self.env["__tmp__"] = Var(tn, t)
+                    lines += self.assign(tg, fake, node, scope)
+                    if saved is None:
+                        self.env.pop("__tmp__", None)
+                    else:
+                        self.env["__tmp__"] = saved
+            return lines
         if isinstance(target, (ast.Tuple, ast.List)) and all(isinstance(x, ast.Name) for x in target.elts):
             v, t, eff = self.expr(value)
             t = norm(t)
@@ -681,6 +779,10 @@ class Fn:
             if var is not None and var.kind == "val" and norm(var.ty) == "ListNat" and var.mut:
                 k, kt, _ = self.expr(call.args[0])
                 return [f"{var.lean} := {var.lean}.erase {self.asNat(k, kt, node)}"]
+        if isinstance(f, ast.Attribute) and isinstance(f.value, ast.Name) and f.value.id in ("self", self.cname) and type(self) is Fn \
+                and self.src.find_method(self.cname, f.attr)[0] is not None:
+            v, t, _ = self.helper_call(call, True)
+            return [f"let _ := {v}"]
         self.err(node, "unsupported expression statement")
 
     def update_arg(self, ft, arg, at, node):
@@ -739,7 +841,31 @@ class Fn:
         c, ct, eff = self.expr(s.test, allow_eff=False)
         if norm(ct) != "Bool":
             self.err(s, "condition is not boolean")
-        lines = [f"if {c} then"]
+        # names that are first bound on EVERY path through this if/else are visible after it in Python: declare them before the `if`
+        # (the placeholder value can never be read, every path overwrites it)
+        hoist = [n_ for n_ in sorted(self.assigned_on_all_paths(s.body) & self.assigned_on_all_paths(s.orelse)) if n_ not in self.env] \
+            if s.orelse else []
+        pre = []
+        if hoist:
+            snap = (dict(self.env), self.counter, list(self.deferred_types), dict(self.last_decl_types), self.uses_perm,
+                    getattr(self, "uses_draws", False), getattr(self, "w", None), getattr(self, "world_used", False))
+            self.last_decl_types = {}
+            self.block(s.body)                     # trial translation of the first branch, only to learn the types
+            types = dict(self.last_decl_types)
+            (self.env, self.counter, self.deferred_types, self.last_decl_types, self.uses_perm, ud, self.w, self.world_used) = snap
+            if hasattr(self, "uses_draws"):
+                self.uses_draws = ud
+            self.env = dict(self.env)
+            for n_ in hoist:
+                ty = norm(types.get(n_))
+                dflt = {"DictV": "[]", "DictK": "[]", "ListOut": "[]", "ListNat": "[]", "ListK": "[]", "ListDictK": "[]", "Nat": "0",
+                        "K": "0", "Bool": "false"}.get(ty if isinstance(ty, str) else None)
+                if dflt is None:
+                    self.err(s, f"`{n_}` is first assigned inside both branches with a type ({ty}) that has no placeholder value")
+                self.env[n_] = Var(n_, ty, mut=True)
+                scope["declared"].append(n_)
+                pre.append(f"let mut {n_} : {lean_ty(ty)} := {dflt}")
+        lines = pre + [f"if {c} then"]
         saved = dict(self.env)
         lines += ["  " + x for x in self.block(s.body)]
         self.env = dict(saved)
@@ -748,6 +874,16 @@ class Fn:
             lines += ["  " + x for x in self.block(s.orelse)]
             self.env = dict(saved)
         return lines
+
+    @staticmethod
+    def assigned_on_all_paths(stmts):
+        out = set()
+        for st in stmts:
+            if isinstance(st, ast.Assign) and len(st.targets) == 1 and isinstance(st.targets[0], ast.Name):
+                out.add(st.targets[0].id)
+            elif isinstance(st, ast.If) and st.orelse:
+                out |= Fn.assigned_on_all_paths(st.body) & Fn.assigned_on_all_paths(st.orelse)
+        return out
 
     def for_stmt(self, s, scope):
         if s.orelse or not isinstance(s.target, ast.Name):
@@ -789,12 +925,431 @@ class Fn:
         return text
 
 
+# ----------------------------------------------------------------------------------------------------------------
+# imputers (ixai/imputer/marginal_imputer.py, default_imputer.py): `do`-blocks over `StateM Nat` (the position in the sequence of
+# index draws), the model a pure function.  Vocabulary:
+#   random.randrange(n) -> (← drawIdx idxs n)            self.model_function(z) -> model z
+#   self.sampling_strategy == 'joint' -> joint            self.storage_object / a `storage_object` parameter -> (rows, m)
+#   storage.get_data() -> (rows, targets)                 len(features) -> m ; features[i] -> rows i ; inst[f] -> inst f ; .copy() -> id
+#   {**x_i, **sampled} -> overlayD x_i sampled            self.values[f] -> values f
+#   {f: e for f in S} -> Dict.ofPairs ; d[f] = e -> Dict.set ; l = [] / l.append(e) -> list ; [e for _ in range(n)] -> map over range
+#   self._helper(args) / staticmethod helpers -> (← Class._helper idxs args)
+# ----------------------------------------------------------------------------------------------------------------
+IMP_FILES = {"BaseImputer": "ixai/imputer/base.py", "MarginalImputer": "ixai/imputer/marginal_imputer.py",
+             "DefaultImputer": "ixai/imputer/default_imputer.py"}
+IMP_EMIT = {"MarginalImputer": ["_sample_marginals", "_sample_product_marginals", "_sample", "impute"], "DefaultImputer": ["impute"]}
+IMP_PARAM_TYPES = {"features": "Rows", "feature_subset": "ListNat", "storage_object": "Rows", "x_i": "Inst", "n_samples": "Nat"}
+IMP_RETURNS = {"_sample_marginals": "DictV", "_sample_product_marginals": "DictV", "_sample": "DictV", "impute": "ListOut"}
+
+
+class ImpFn(Fn):
+    def __init__(self, src, cname, fn, rel):
+        super().__init__(src, cname, fn, rel)
+        self.uses_draws = False
+
+    def rows(self, e):
+        """(function, length) of an expression of type Rows"""
+        if isinstance(e, ast.Name) and e.id in self.env and norm(self.env[e.id].ty) == "Rows":
+            return self.env[e.id].lean, self.env[e.id].lean + "_len"
+        if isinstance(e, ast.Attribute) and isinstance(e.value, ast.Name) and e.value.id == "self" and e.attr == "storage_object":
+            return "storage_rows", "storage_len"
+        self.err(e, "a list of stored observations is expected")
+
+    def expr(self, e, allow_eff=True):
+        if isinstance(e, ast.Attribute) and isinstance(e.value, ast.Name) and e.value.id == "self":
+            if e.attr == "storage_object":
+                return "storage_rows", "Rows", False
+            if e.attr == "values":
+                return "values", "Inst", False
+            self.err(e, "unknown attribute of the imputer")
+        if isinstance(e, ast.Name) and e.id in self.env and norm(self.env[e.id].ty) == "Rows":
+            return self.env[e.id].lean, "Rows", False
+        if isinstance(e, ast.Compare) and ast.unparse(e) in ("self.sampling_strategy == 'joint'", 'self.sampling_strategy == "joint"'):
+            return "joint", "Bool", False
+        if isinstance(e, ast.Subscript):
+            base, bt, eff1 = self.expr(e.value, allow_eff)
+            bt = norm(bt)
+            idx, it, eff2 = self.expr(e.slice, allow_eff)
+            if bt == "Rows":
+                return f"({base} {self.asNat(idx, it, e)})", "Inst", eff1 or eff2
+            if bt == "Inst":
+                return f"({base} {self.asNat(idx, it, e)})", "V", eff1 or eff2
+            self.err(e, f"subscript of a value of type {bt}")
+        if isinstance(e, ast.Dict):
+            if not e.keys:
+                return "([] : Dict V)", "DictV", False
+            if len(e.keys) == 2 and e.keys[0] is None and e.keys[1] is None:
+                a, at, e1 = self.expr(e.values[0], allow_eff)
+                b, bt, e2 = self.expr(e.values[1], allow_eff)
+                if norm(at) != "Inst" or norm(bt) != "DictV":
+                    self.err(e, "only {**instance, **sampled_values} is supported")
+                return f"(overlayD {a} {b})", "Inst", e1 or e2
+            self.err(e, "unsupported dict display")
+        if isinstance(e, ast.List) and not e.elts:
+            return "[]", "ListOut", False
+        return super().expr(e, allow_eff)
+
+    def call(self, e, allow_eff):
+        f = e.func
+        name = ast.unparse(f)
+        if name in ("random.randrange",) and len(e.args) == 1 and not e.keywords:
+            if not allow_eff:
+                self.err(e, "random draw inside a pure context")
+            n, nt, _ = self.expr(e.args[0])
+            self.uses_draws = True
+            return f"(← drawIdx idxs {self.asNat(n, nt, e)})", "Nat", True
+        if name == "self.model_function" and len(e.args) == 1 and not e.keywords:
+            z, zt, eff = self.expr(e.args[0], allow_eff)
+            if norm(zt) != "Inst":
+                self.err(e, "the model function is applied to something that is not an instance")
+            return f"(model {z})", "Out", eff
+        if name == "len" and len(e.args) == 1:
+            a = e.args[0]
+            v, t, eff = self.expr(a, allow_eff)
+            if norm(t) == "Rows":
+                return self.rows(a)[1], "Nat", eff
+        if name == "range" and len(e.args) in (1, 2):
+            if len(e.args) == 2:
+                lo, lt, _ = self.expr(e.args[0])
+                hi, ht, _ = self.expr(e.args[1])
+                return f"(List.range' {self.asNat(lo, lt, e)} ({self.asNat(hi, ht, e)} - {self.asNat(lo, lt, e)}))", "ListNat", False
+            n, nt, _ = self.expr(e.args[0])
+            return f"(List.range {self.asNat(n, nt, e)})", "ListNat", False
+        if isinstance(f, ast.Attribute) and f.attr == "copy" and not e.args:
+            return self.expr(f.value, allow_eff)
+        if isinstance(f, ast.Attribute) and f.attr == "get_data" and not e.args:
+            v, t, eff = self.expr(f.value, allow_eff)
+            if norm(t) == "Rows":
+                return v, ("Tup", ["Rows", "Unit"]), eff
+        if isinstance(f, ast.Attribute) and isinstance(f.value, ast.Name) and f.value.id in ("self", self.cname) \
+                and f.attr in IMP_EMIT.get(self.cname, []):
+            if not allow_eff:
+                self.err(e, "helper call inside a pure context")
+            h, hrel, _ = self.src.find_method(self.cname, f.attr)
+            hparams = [a.arg for a in h.args.args if a.arg != "self"]
+            got = self.kwargs(e, hparams, e)
+            args = []
+            for pn in hparams:
+                if pn not in got:
+                    d = dict(zip(hparams[len(hparams) - len(h.args.defaults):], h.args.defaults)).get(pn)
+                    if d is None:
+                        self.err(e, f"missing argument {pn}")
+                    got[pn] = d
+                v, t, _ = self.expr(got[pn])
+                want = IMP_PARAM_TYPES.get(pn)
+                if want is None or (norm(t) != want and not (want == "Nat" and norm(t) == "IntLit")):
+                    self.err(e, f"argument {pn} of {f.attr} has type {norm(t)}, expected {want}")
+                args.append(f"{v} {self.rows(got[pn])[1]}" if want == "Rows" else v)
+            self.uses_draws = True
+            extra = " joint" if f.attr == "_sample" else ""
+            return f"(← {self.cname}.{f.attr} idxs{extra} {' '.join(args)})", IMP_RETURNS[f.attr], True
+        return super().call(e, allow_eff)
+
+    def listcomp(self, e, allow_eff):
+        g = e.generators[0] if len(e.generators) == 1 else None
+        if g is not None and not g.ifs and isinstance(g.target, ast.Name) and isinstance(g.iter, ast.Call) and ast.unparse(g.iter.func) == "range":
+            it, _, _ = self.expr(g.iter)
+            saved = dict(self.env)
+            self.env[g.target.id] = Var(g.target.id if g.target.id != "_" else "_i", "Nat")
+            body, bt, beff = self.expr(e.elt, allow_eff=False)
+            self.env = saved
+            if norm(bt) != "Out":
+                self.err(e, "comprehension over a range producing something other than predictions")
+            return f"({it}.map (fun {'_i' if g.target.id == '_' else g.target.id} => {body}))", "ListOut", False
+        return super().listcomp(e, allow_eff)
+
+    def dictcomp(self, e):
+        if len(e.generators) != 1 or e.generators[0].ifs or not isinstance(e.generators[0].target, ast.Name):
+            self.err(e, "unsupported comprehension")
+        g = e.generators[0]
+        it, itt, _ = self.expr(g.iter, allow_eff=False)
+        if norm(itt) != "ListNat":
+            self.err(e, "dict comprehension over something other than the feature subset")
+        saved = dict(self.env)
+        vn = g.target.id
+        self.env[vn] = Var(vn, "Nat")
+        k, kt, _ = self.expr(e.key, allow_eff=False)
+        v, vt, _ = self.expr(e.value, allow_eff=False)
+        self.env = saved
+        if norm(vt) != "V":
+            self.err(e, "dict comprehension whose values are not feature values")
+        return f"(Dict.ofPairs ({it}.map (fun {vn} => ({self.asNat(k, kt, e)}, {v}))))", "DictV", False
+
+    def assign(self, target, value, node, scope):
+        if isinstance(target, ast.Subscript) and isinstance(target.value, ast.Name):
+            d = self.env.get(target.value.id)
+            if d is not None and d.kind == "val" and norm(d.ty) == "DictV":
+                if not d.mut:
+                    self.err(node, "item assignment on an immutable local")
+                k, kt, _ = self.expr(target.slice)
+                v, vt, _ = self.expr(value)
+                if norm(vt) != "V":
+                    self.err(node, "a feature value is expected")
+                return [f"{d.lean} := Dict.set {d.lean} {self.asNat(k, kt, node)} {v}"]
+        if isinstance(target, (ast.Tuple, ast.List)) and len(target.elts) == 2 and all(isinstance(x, ast.Name) for x in target.elts):
+            v, t, _ = self.expr(value)
+            t = norm(t)
+            if isinstance(t, tuple) and t[0] == "Tup" and t[1] == ["Rows", "Unit"]:
+                # features, _ = storage.get_data()
+                nm = target.elts[0].id
+                src_len = self.rows(value.func.value)[1]
+                self.env[nm] = Var(nm, "Rows")
+                scope["declared"].append(nm)
+                return [f"let {nm} := {v}", f"let {nm}_len := {src_len}"]
+        if isinstance(target, ast.Name) and target.id == "_":
+            return []
+        return super().assign(target, value, node, scope)
+
+    def call_stmt(self, call, node, scope):
+        f = call.func
+        if isinstance(f, ast.Attribute) and f.attr == "append" and len(call.args) == 1 and isinstance(f.value, ast.Name):
+            var = self.env.get(f.value.id)
+            if var is not None and var.kind == "val" and norm(var.ty) == "ListOut" and var.mut:
+                v, t, _ = self.expr(call.args[0])
+                if norm(t) != "Out":
+                    self.err(node, "a prediction is expected")
+                return [f"{var.lean} := {var.lean} ++ [{v}]"]
+        return super().call_stmt(call, node, scope)
+
+    def for_stmt(self, s, scope):
+        if isinstance(s.target, ast.Name) and s.target.id == "_":
+            s = ast.For(target=ast.Name(id="_i", ctx=ast.Store()), iter=s.iter, body=s.body, orelse=s.orelse)
+            ast.copy_location(s, s.iter)
+            ast.fix_missing_locations(s)
+        return super().for_stmt(s, scope)
+
+    def stmt(self, s, scope):
+        if isinstance(s, ast.Return) and s.value is not None:
+            def build():
+                v, t, eff = self.expr(s.value)
+                want = IMP_RETURNS[self.fn.name]
+                if norm(t) != want:
+                    self.err(s, f"{self.fn.name} returns a value of type {norm(t)}, expected {want}")
+                return [f"return {v}"]
+            return self.with_world(build)
+        return super().stmt(s, scope)
+
+    def translate(self):
+        fn = self.fn
+        self.deferred_types = []
+        args = [a.arg for a in fn.args.args if a.arg != "self"]
+        sig = []
+        for a in args:
+            t = IMP_PARAM_TYPES.get(a)
+            if t is None:
+                self.err(fn, f"parameter {a} is not in the translator schema")
+            self.env[a] = Var(a, t, mut=False)
+            sig.append(f"({a} : Nat → Inst V) ({a}_len : Nat)" if t == "Rows" else f"({a} : {lean_ty(t)})")
+        scope = self.new_scope()
+        body = self.block(fn.body, scope)
+        text = "\n".join("  " + x for x in body)
+        for ph, ty in self.deferred_types:
+            text = text.replace(ph, lean_ty(ty))
+        return sig, text
+
+
+IMP_HEADER = """/-
+  GENERATED by tools/py2lean_eff.py from {rels} — do not edit.
+  sha256: {sha}
+  `{cname}` statement by statement; index draws are explicit (`drawIdx idxs n` = the next `random.randrange(n)`).
+-/
+import IxaiVerif.Model.Imputer
+
+namespace Ixai.Gen
+open Ixai
+
+variable {{V O : Type}}
+
+"""
+
+
+def translate_imputer(src, cname):
+    out = []
+    for m in IMP_EMIT[cname]:
+        fn, rel, owner = src.find_method(cname, m)
+        if fn is None:
+            raise Unsupported(f"{IMP_FILES[cname]}: {cname}.{m} not found")
+        f = ImpFn(src, cname, fn, rel)
+        sig, body = f.translate()
+        ret = lean_ty(IMP_RETURNS[m])
+        fixed = []
+        if cname == "MarginalImputer":
+            fixed.append("(idxs : Nat → Nat → Nat)")
+            if m == "_sample":
+                fixed.append("(joint : Bool)")
+            if m == "impute":
+                fixed += ["(model : Inst V → O)", "(joint : Bool)", "(storage_rows : Nat → Inst V) (storage_len : Nat)"]
+            out.append(f"def {cname}.{m} {' '.join(fixed + sig)} : StateM Nat ({ret}) := do\n{body}\n")
+        else:
+            fixed += ["(model : Inst V → O)", "(values : Inst V)"]
+            if f.uses_draws:
+                raise Unsupported(f"{rel}: {cname}.{m} draws random numbers")
+            out.append(f"def {cname}.{m} {' '.join(fixed + sig)} : {ret} := Id.run do\n{body}\n")
+    rels = sorted({IMP_FILES[c] for c in src.mro(cname)})
+    sha = ",".join(src.sha[c] for c in src.mro(cname))
+    return IMP_HEADER.format(rels=", ".join(rels), sha=sha, cname=cname) + "\n".join(out) + "\nend Ixai.Gen\n", rels, sha
+
+
+# ----------------------------------------------------------------------------------------------------------------
+# BatchSage.explain_many (ixai/explainer/sage/batch.py): again a `do`-block over `M K`.  Additional vocabulary:
+#   self._model_function(x_data) on the list of instances -> (← M.mapM' (callModel O) x_data)   (wrappers evaluate batches row-wise: C14)
+#   self._imputer.impute(S, x, n)                          -> (← imputeMx x S n)                 (the instance varies per observation)
+#   np.random.permutation(k)                               -> permutation (invocation counter) k (one draw per explained observation)
+#   for n, (x_i, y_i) in tqdm(enumerate(zip(xs, ys), start=1), …) -> for ((x_i, y_i), n) in (List.zip xs ys).zipIdx 1
+#   self.importance_values = e  -> a local (BatchSage keeps the last result in a plain attribute) ; d[k] += e -> Dict.set d k (d.getD k 0 + e)
+#   {k: e for k, v in d.items()} -> Dict.ofPairs (d.map ..)
+# ----------------------------------------------------------------------------------------------------------------
+BATCH_FILES = {"BatchSage": "ixai/explainer/sage/batch.py"}
+BATCH_PARAMS = {"x_data": "ListInst", "y_data": "ListY", "n_inner_samples": ("Opt", "Nat"), "verbose": "Bool"}
+
+
+class BatchFn(Fn):
+    def self_attr(self, e):
+        if e.attr == "importance_values":
+            if "self.importance_values" not in self.env:
+                self.err(e, "self.importance_values is read before this call has assigned it")
+            v = self.env["self.importance_values"]
+            return v.lean, v.ty, False
+        if e.attr in ("feature_names", "n_inner_samples"):
+            return super().self_attr(e)
+        self.err(e, "unknown attribute of the explainer")
+
+    def call(self, e, allow_eff):
+        name = ast.unparse(e.func)
+        if name == "self._model_function" and len(e.args) == 1 and not e.keywords:
+            x, xt, _ = self.expr(e.args[0])
+            if norm(xt) == "ListInst":
+                if not allow_eff:
+                    self.err(e, "callback inside a pure context")
+                return f"(← M.mapM' (fun x_row => callModel O x_row) {x})", "ListDictK", True
+        if name == "self._imputer.impute":
+            if not allow_eff:
+                self.err(e, "callback inside a pure context")
+            got = self.kwargs(e, ["feature_subset", "x_i", "n_samples"], e)
+            if set(got) != {"feature_subset", "x_i", "n_samples"}:
+                self.err(e, "imputer call without explicit feature_subset / x_i / n_samples")
+            sv, st, _ = self.expr(got["feature_subset"])
+            x, xt, _ = self.expr(got["x_i"])
+            n, nt, _ = self.expr(got["n_samples"])
+            if norm(st) != "ListNat" or norm(xt) != "Inst" or norm(nt) not in ("Nat", "IntLit"):
+                self.err(e, "imputer call on something other than (feature subset, an instance, a count)")
+            return f"(← imputeMx {x} {sv} {n})", "ListDictK", True
+        if name == "np.random.permutation" and len(e.args) == 1:
+            n, nt, _ = self.expr(e.args[0])
+            self.uses_perm = True
+            return f"(permutation {self.need_world()}.calls {self.asNat(n, nt, e)})", "ListNat", False
+        if name == "len" and len(e.args) == 1:
+            v, t, eff = self.expr(e.args[0], allow_eff)
+            if norm(t) in ("ListInst", "ListY"):
+                return f"{v}.length", "Nat", eff
+        if name in ("self.explain_many", "self.explain_many_original", "self._storage.update", "self._storage.get_data"):
+            self.err(e, "unsupported call")
+        return super().call(e, allow_eff)
+
+    def dictcomp(self, e):
+        g = e.generators[0] if len(e.generators) == 1 else None
+        if g is not None and not g.ifs and isinstance(g.iter, ast.Call) and isinstance(g.iter.func, ast.Attribute) \
+                and g.iter.func.attr == "items" and not g.iter.args and isinstance(g.target, ast.Tuple) and len(g.target.elts) == 2 \
+                and all(isinstance(x, ast.Name) for x in g.target.elts):
+            d, dt, _ = self.expr(g.iter.func.value, allow_eff=False)
+            if norm(dt) != "DictK":
+                self.err(e, "items() of something that is not a dict of numbers")
+            saved = dict(self.env)
+            self.env[g.target.elts[0].id] = Var("kv.1", "Nat")
+            self.env[g.target.elts[1].id] = Var("kv.2", "K")
+            k, kt, _ = self.expr(e.key, allow_eff=False)
+            v, vt, _ = self.expr(e.value, allow_eff=False)
+            self.env = saved
+            return f"(Dict.ofPairs ({d}.map (fun (kv : Nat × K) => ({self.asNat(k, kt, e)}, {self.asK(v, vt, e)}))))", "DictK", False
+        return super().dictcomp(e)
+
+    def assign(self, target, value, node, scope):
+        if isinstance(target, ast.Attribute) and isinstance(target.value, ast.Name) and target.value.id == "self" \
+                and target.attr == "importance_values":
+            v, t, _ = self.expr(value)
+            if norm(t) != "DictK":
+                self.err(node, "self.importance_values is assigned something that is not a dict of numbers")
+            return self.declare("self.importance_values", v, "DictK", node, scope)
+        return super().assign(target, value, node, scope)
+
+    def declare(self, name, value, ty, node, scope):
+        lines = super().declare(name, value, ty, node, scope)
+        if name == "self.importance_values":
+            lines = [ln.replace("self.importance_values", "self_importance_values") for ln in lines]
+            self.env[name].lean = self.env[name].lean.replace("self.importance_values", "self_importance_values")
+        return lines
+
+    def for_stmt(self, s, scope):
+        it = s.iter
+        if isinstance(it, ast.Call) and ast.unparse(it.func) == "tqdm" and it.args:
+            it = it.args[0]          # a progress bar is the identity on what it iterates
+        if isinstance(it, ast.Call) and ast.unparse(it.func) == "enumerate" and len(it.args) == 1 and isinstance(it.args[0], ast.Call) \
+                and ast.unparse(it.args[0].func) == "zip" and len(it.args[0].args) == 2 and isinstance(s.target, ast.Tuple) \
+                and len(s.target.elts) == 2 and isinstance(s.target.elts[0], ast.Name) and isinstance(s.target.elts[1], ast.Tuple) \
+                and len(s.target.elts[1].elts) == 2 and all(isinstance(x, ast.Name) for x in s.target.elts[1].elts) and not s.orelse:
+            start = "0"
+            for kw in it.keywords:
+                if kw.arg == "start":
+                    sv, st, _ = self.expr(kw.value)
+                    start = self.asNat(sv, st, s)
+                else:
+                    self.err(s, "unsupported enumerate argument")
+            a, at, _ = self.expr(it.args[0].args[0], allow_eff=False)
+            b, bt, _ = self.expr(it.args[0].args[1], allow_eff=False)
+            if norm(at) != "ListInst" or norm(bt) != "ListY":
+                self.err(s, "loop over something other than the zipped observations")
+            nvar, xvar, yvar = s.target.elts[0].id, s.target.elts[1].elts[0].id, s.target.elts[1].elts[1].id
+            saved = dict(self.env)
+            self.env[nvar], self.env[xvar], self.env[yvar] = Var(nvar, "Nat"), Var(xvar, "Inst"), Var(yvar, "Y")
+            self.in_loop += 1
+            body = self.block(s.body)
+            self.in_loop -= 1
+            self.env = dict(saved)
+            return [f"for (({xvar}, {yvar}), {nvar}) in ((List.zip {a} {b}).zipIdx {start}) do"] + ["  " + x for x in body]
+        return super().for_stmt(s, scope)
+
+    def translate(self):
+        fn = self.fn
+        self.deferred_types = []
+        args = [a.arg for a in fn.args.args[1:]] + [a.arg for a in fn.args.kwonlyargs]
+        if args != list(BATCH_PARAMS):
+            self.err(fn, f"signature of explain_many is {args}, expected {list(BATCH_PARAMS)}")
+        lines = []
+        for a in args:
+            t = BATCH_PARAMS[a]
+            if self.stores.get(a, 0) > 0:
+                self.env[a] = Var(a, t, mut=True)
+                lines.append(f"let mut {a} := {a}")
+            else:
+                self.env[a] = Var(a, t, mut=False)
+        lines += self.block(fn.body, self.new_scope())
+        text = "\n".join("  " + x for x in lines)
+        for ph, ty in self.deferred_types:
+            text = text.replace(ph, lean_ty(ty))
+        return text
+
+
+def translate_batch(src):
+    cname = "BatchSage"
+    fn, rel, owner = src.find_method(cname, "explain_many")
+    if fn is None:
+        raise Unsupported(f"{BATCH_FILES[cname]}: BatchSage.explain_many not found")
+    f = BatchFn(src, cname, fn, rel)
+    body = f.translate()
+    sig = ("def BatchSage.explain_many (O : Oracles K V Y) (feature_names : List Nat) (cfg_n_inner_samples : Nat)\n"
+           "    (permutation : Nat → Nat → List Nat) (imputeMx : Inst V → List Nat → Nat → M K (List (Dict K)))\n"
+           "    (x_data : List (Inst V)) (y_data : List Y) (n_inner_samples : Option Nat) (verbose : Bool) : M K (Dict K) := do\n")
+    sha = src.sha[cname]
+    return HEADER.format(rels=BATCH_FILES[cname], sha=sha, cname=cname).replace("explain_one", "explain_many") + sig + body + "\n\nend Ixai.Gen\n", \
+        [BATCH_FILES[cname]], sha
+
+
 class Source:
-    def __init__(self, repo):
+    def __init__(self, repo, files=None):
         self.repo = repo
         self.classes = {}
         self.sha = {}
-        for cname, rel in FILES.items():
+        for cname, rel in (files or FILES).items():
             text = open(os.path.join(repo, rel)).read()
             self.sha[cname] = hashlib.sha256(text.encode()).hexdigest()[:16]
             tree = ast.parse(text, filename=rel)
@@ -855,7 +1410,12 @@ def translate_class(src, cname):
     f = Fn(src, cname, fn, rel)
     body = f.translate()
     perm = " (permutation : Nat → List Nat)" if f.uses_perm else ""
-    sig = (f"def {cname}.explain_one (O : Oracles K V Y) (feature_names : List Nat) (cfg_n_inner_samples : Nat){perm}\n"
+    hdefs = ""
+    for (lname, hperm, hsig, hret, htext) in f.helpers.values():
+        hp = " (permutation : Nat → List Nat)" if hperm else ""
+        hdefs += (f"def {lname} (O : Oracles K V Y) (feature_names : List Nat) (cfg_n_inner_samples : Nat){hp}\n"
+                  f"    (imputeM : List Nat → Nat → M K (List (Dict K))) {hsig} : M K ({lean_ty(hret)}) := do\n{htext}\n\n")
+    sig = hdefs + (f"def {cname}.explain_one (O : Oracles K V Y) (feature_names : List Nat) (cfg_n_inner_samples : Nat){perm}\n"
            f"    (imputeM : List Nat → Nat → M K (List (Dict K)))\n"
            f"    (x_i : Inst V) (y_i : Y) (n_inner_samples : Option Nat) (update_storage : Bool) : M K (Dict K) := do\n")
     rels = sorted({FILES[c] for c in src.mro(cname)})
@@ -877,6 +1437,35 @@ def generate(repo=None, outdir=None):
             text, rels, sha = translate_class(src, cname)
         except Unsupported as ex:
             report[cname] = {"sources": [FILES[cname]], "sha256": "", "changed": False, "error": str(ex)}
+            continue
+        path = os.path.join(outdir, cname + ".lean")
+        old = open(path).read() if os.path.exists(path) else None
+        if old != text:
+            with open(path, "w") as fh:
+                fh.write(text)
+        report[cname] = {"sources": rels, "sha256": sha, "changed": old != text}
+    try:
+        bsrc = Source(repo, BATCH_FILES)
+        text, rels, sha = translate_batch(bsrc)
+        path = os.path.join(outdir, "BatchSage.lean")
+        old = open(path).read() if os.path.exists(path) else None
+        if old != text:
+            with open(path, "w") as fh:
+                fh.write(text)
+        report["BatchSage"] = {"sources": rels, "sha256": sha, "changed": old != text}
+    except (Unsupported, SyntaxError, OSError) as ex:
+        report["BatchSage"] = {"sources": [BATCH_FILES["BatchSage"]], "sha256": "", "changed": False, "error": str(ex)}
+    try:
+        isrc = Source(repo, IMP_FILES)
+    except (Unsupported, SyntaxError, OSError) as ex:
+        for c in IMP_EMIT:
+            report[c] = {"sources": [IMP_FILES[c]], "sha256": "", "changed": False, "error": str(ex)}
+        return report
+    for cname in IMP_EMIT:
+        try:
+            text, rels, sha = translate_imputer(isrc, cname)
+        except Unsupported as ex:
+            report[cname] = {"sources": [IMP_FILES[cname]], "sha256": "", "changed": False, "error": str(ex)}
             continue
         path = os.path.join(outdir, cname + ".lean")
         old = open(path).read() if os.path.exists(path) else None
